@@ -53,6 +53,53 @@ def recheck_present(lib):
     return out
 
 
+def index_path_returns_only_rechecked(lib):
+    """the index-path segment (between try_index_lookup and the scan) of select_with_options,
+    select_with_limit, count, count_column: the ONLY success return is the re-checked result
+    (rows / result / count); any other `return Ok(` is a shortcut past the re-check"""
+    want = {"select_with_options": ["rows"], "select_with_limit": ["result"], "count": ["count"],
+            "count_column": ["count"]}
+    for fn, exp in want.items():
+        _sig, body = find_fn(lib, fn, after=r"impl\s+RelationalEngine\b")
+        b = norm_ws(body)
+        i = b.find("try_index_lookup")
+        j = b.find("scan_all", i)
+        if i < 0 or j < 0:
+            raise KeyError("%s: index segment not found" % fn)
+        seg = b[i:j]
+        rets = re.findall(r"return Ok\(([^()]*(?:\([^()]*\))?[^()]*)\)", seg)
+        if [r.strip() for r in rets] != exp:
+            return False
+        if "evaluate_with_depth" not in seg:
+            return False
+    return True
+
+
+def ordered_key_order(lib):
+    """impl Ord for OrderedFloat: NaN = NaN, NaN least, otherwise partial_cmp (so -0.0 and +0.0
+    are ONE key, as in Condition::evaluate).  total_cmp / to_bits comparisons split the zeros."""
+    m = re.search(r"impl\s+Ord\s+for\s+OrderedFloat\s*\{", lib)
+    if not m:
+        raise KeyError("impl Ord for OrderedFloat not found")
+    _sig, body = find_fn(lib[m.end():], "cmp")
+    b = norm_ws(body)
+    shape = (r"match \(self\.0\.is_nan\(\), other\.0\.is_nan\(\)\) \{ "
+             r"\(true, true\) => std::cmp::Ordering::Equal, "
+             r"\(true, false\) => std::cmp::Ordering::Less, "
+             r"\(false, true\) => std::cmp::Ordering::Greater, "
+             r"\(false, false\) => (.*?),? \}$")
+    mm = re.match(shape, b.strip())
+    if not mm:
+        raise KeyError("OrderedFloat::cmp shape not recognised")
+    arm = mm.group(1).strip()
+    if re.fullmatch(r"self \.0 \.partial_cmp\(&other\.0\) \.unwrap_or\(std::cmp::Ordering::Equal\)", arm) or \
+       re.fullmatch(r"self\s*\.0\s*\.partial_cmp\(&other\.0\)\s*\.unwrap_or\(std::cmp::Ordering::Equal\)", arm):
+        return True
+    if "total_cmp" in arm or "to_bits" in arm:
+        return False
+    raise KeyError("non-NaN arm not recognised: %s" % arm[:60])
+
+
 def limit_after_recheck(lib):
     _sig, body = find_fn(lib, "select_with_limit", after=r"impl\s+RelationalEngine\b")
     b = norm_ws(body)
@@ -143,6 +190,8 @@ def generate(repo):
     item("index_dispatch", True, lambda: index_dispatch(lib))
     item("recheck_present", True, lambda: recheck_present(lib))
     item("limit_after_recheck", True, lambda: limit_after_recheck(lib))
+    item("index_path_returns_only_rechecked", True, lambda: index_path_returns_only_rechecked(lib))
+    item("ordered_key_identifies_zeros", True, lambda: ordered_key_order(lib))
     item("vector_kernels", (True, True, True, True), lambda: vector_kernels(lib))
     item("feq_tail_exact", True, lambda: feq_tail_exact(simd))
     item("insert_indexes_omitted_null", True, lambda: insert_indexes_omitted(lib))
@@ -159,6 +208,11 @@ def generate(repo):
         + "Definition gen_recheck_present : bool := %s.\n" % b(out["recheck_present"])
         + "(* select_with_limit cuts the offset/limit window after re-check and sort *)\n"
         + "Definition gen_limit_after_recheck : bool := %s.\n" % b(out["limit_after_recheck"])
+        + "(* the index paths of select / select_with_limit / count / count_column return nothing but the\n"
+          "   re-checked result (no shortcut that trusts an index bucket) *)\n"
+        + "Definition gen_index_path_returns_only_rechecked : bool := %s.\n" % b(out["index_path_returns_only_rechecked"])
+        + "(* OrderedFloat::cmp: NaNs equal and least, otherwise partial_cmp: -0.0 and +0.0 are one key *)\n"
+        + "Definition gen_ordered_key_identifies_zeros : bool := %s.\n" % b(out["ordered_key_identifies_zeros"])
         + "(* apply_slab_vectorized_filter: comparison kernels clear NULL cells, Ne keeps them, every\n"
           "   kernel is ANDed with the alive mask, Condition::True is left to the row path *)\n"
         + "Definition gen_vector_null_masked : bool := %s.\n" % b(masked)
